@@ -347,6 +347,9 @@ func (en *Engine) runTables(fc *FuncContract, res *UnitResult) {
 			goal, consts := skolemize(t, fmt.Sprintf("sk%d_", i+1))
 			for _, d := range consts {
 				e.declOnce(d)
+				if f := strings.Fields(d); len(f) > 1 {
+					e.watches = append(e.watches, [2]string{fmt.Sprintf("table%d witness %s", i+1, strings.TrimPrefix(f[1], fmt.Sprintf("sk%d_", i+1))), f[1]})
+				}
 			}
 			e.obligeCl(fin, fmt.Sprintf("table%d", i+1), goal, &fc.Ensures[i])
 		}
@@ -387,6 +390,11 @@ func (en *Engine) RunLemma(l *Lemma) (res *UnitResult) {
 	}
 	goal, consts := skolemize(l.Goal, "sk_")
 	e.decls = append(e.decls, consts...)
+	for _, d := range consts {
+		if f := strings.Fields(d); len(f) > 1 {
+			e.watches = append(e.watches, [2]string{"witness " + strings.TrimPrefix(f[1], "sk_"), f[1]})
+		}
+	}
 	e.obls = append(e.obls, Obligation{Name: "goal", Kind: "lemma", Goal: goal, Src: l.File + ": " + l.Name})
 	en.finish(e, fc, res)
 	return
